@@ -61,10 +61,11 @@ const (
 	vExited          // status exited
 	vPending         // pending queued, activation at epoch 1001
 	vEmptyCom        // active, EMPTY committee: impossible given the registry invariants; kept to tie the model's panic outcome
+	vTopic           // active, key on subnet 7: its topic id is a suffix of 17, 27, …, 127 (topic rule sweeps)
 	vCount
 )
 
-var flavourNames = []string{"main", "liquidated", "nometa", "exited", "pending", "emptycom"}
+var flavourNames = []string{"main", "liquidated", "nometa", "exited", "pending", "emptycom", "topic7"}
 
 type World struct {
 	N       int
